@@ -806,7 +806,8 @@ def _group_func_wrap(
     values, orig_types = zip(*list(map(_cast_timestamps_to_ints, values)))
     orig_type = orig_types[0]
 
-    if reduce_func_name == "sum_squares":
+    if "sum_squares" in reduce_func_name:
+        # squares are accumulated in float64: the squares of 64-bit integers from about 3e9 on do not fit 64 bits
         values = [v.astype(float) for v in values]
 
     if values_are_chunked:
